@@ -1,4 +1,7 @@
 import SurfProofs.Lemmas.VtEmit
+import SurfProofs.Lemmas.VtEnc
+import SurfProofs.Lemmas.VtResync
+import SurfProofs.Lemmas.VtAttr
 /-!
 # C05 — encoded commands mean exactly what was commanded to a VT/xterm interpreter
 
@@ -6,6 +9,10 @@ import SurfProofs.Lemmas.VtEmit
 every run); `interp` is the reference ECMA-48/xterm interpreter; `meaning` is the specification of
 each command.  All theorems hold for every parameter value (unbounded `Nat`/`Int`, hence in
 particular for every `usize` / `i32`), every colour depth and keyboard capability.
+
+`encodeSt` / `encodeStream` (SurfModel/VtEnc.lean) model the encoder as the stateful object it is —
+the `Chunks` buffer kept across calls, writers that fail, machine arithmetic with panic as an outcome —
+and `C05_call` / `C05_no_panic` / `C05_encoder_stream` reduce all of that to the pure `encode`.
 -/
 namespace SurfProofs.C05
 open SurfModel.Vt SurfProofs.Lemmas.Vt
@@ -479,9 +486,11 @@ theorem C05_meaning (caps : Caps) (cmd : Cmd) (h : Valid cmd) :
   simp only [List.append_nil] at this
   simp [interp, this, run, hm]
 
-/-- **C05, self-contained.** Every command is emitted as complete control sequences: placed after any
-byte string that leaves the interpreter in its ground state and before any other bytes, it performs
-its own operations, and neither disturbs nor is disturbed by its neighbours. -/
+/-- **C05, self-contained (after complete sequences).** Every command is emitted as complete control
+sequences: placed after any byte string that leaves the interpreter in its ground state — i.e. after
+any stream of COMPLETE sequences (`interp pre = some _`) — and before any other bytes, it performs its
+own operations, and neither disturbs nor is disturbed by its neighbours.  What happens after an
+INCOMPLETE sequence is `C05_resync` below. -/
 theorem C05_self_contained (caps : Caps) (cmd : Cmd) (h : Valid cmd) (pre post : List Nat)
     (opsPre : List Op) (hpre : interp pre = some opsPre) :
     interp (pre ++ encode caps cmd ++ post) = (interp post).map fun opsPost => opsPre ++ meaning caps cmd ++ opsPost := by
@@ -518,6 +527,182 @@ theorem C05_no_overflow :
   · intro n hn; unfold satSucc usizeMax at *; split <;> omega
   · intro i h1 h2; omega
 
+/-! ### the encoder as a stateful object: chunk buffer, failing writers, machine arithmetic -/
+
+/-- **C05, one call on any encoder state.** `encodeSt` is `TTYEncoder::encode` with its state: the
+`Chunks` buffer (`buffer`, `offsets`) as left by earlier calls — ANY value, also the uncleared buffer
+a call leaves behind when its writer failed inside `drain` —, a writer that may fail after any number
+of bytes, and range-checked `usize` / `i32` / `u32` arithmetic and slice indexing with panic as an
+outcome.  For parameters that are values of their Rust types the call never panics, and towards the
+writer it is exactly one `write_all (encode caps cmd)`: every byte and `Ok` if the writer has room,
+the longest prefix that fits and `Err` otherwise.  After a successful `Face` / `FaceModify` the chunk
+buffer is empty; the other commands do not touch it. -/
+theorem C05_call (caps : Caps) (st : RawChunks) (cmd : Cmd) (w : Writer) (h : InRange cmd) :
+    ∃ st', encodeSt caps st cmd w
+        = .ok (st', (w.writeAll (encode caps cmd)).1, (w.writeAll (encode caps cmd)).2) ∧
+      ((w.writeAll (encode caps cmd)).2 = true →
+        st' = match cmd with | .face _ | .faceModify _ => RawChunks.empty | _ => st) :=
+  encodeSt_spec caps st cmd w h
+
+/-- **C05, encoding never panics**: for every command with in-range parameters (every `usize` up to
+`usize::MAX`, every `i32` down to `i32::MIN`), every encoder state and every writer, the call does
+not end in the panic outcome: `saturating_add(1)` stays a `usize`, `unsigned_abs` of an `i32` is a
+`u32`, `index + 10` stays an `i32`, and every slice `&buffer[start..end]` of `Chunks::iter` is in
+bounds. -/
+theorem C05_no_panic (caps : Caps) (st : RawChunks) (cmd : Cmd) (w : Writer) (h : InRange cmd) :
+    ∀ e, encodeSt caps st cmd w ≠ .error e := by
+  obtain ⟨st', e, _⟩ := encodeSt_spec caps st cmd w h
+  intro x hx
+  rw [e] at hx
+  cases hx
+
+/-- the operators of the pinned tree (`+ 1`, unary `-`) do panic in this model: the `Except` outcome
+is not vacuous -/
+example : pinnedBytesE ⟨.gray, true⟩ (.cursorTo 0 usizeMax) = .error .addOverflow := rfl
+example : pinnedBytesE ⟨.gray, true⟩ (.scroll (-2147483648)) = .error .negOverflow := rfl
+example : InRange (.cursorMove (-2147483648) 2147483647) := by
+  simp only [InRange, i32Min, i32Max]; omega
+
+theorem takeRoom_of_fits (room : Option Nat) (bs : List Nat) (h : fitsRoom room bs = true) :
+    takeRoom room bs = bs := by
+  cases room with
+  | none => rfl
+  | some k => simp only [fitsRoom, decide_eq_true_eq] at h; simp [takeRoom, List.take_of_length_le h]
+
+/-- **C05, streams through one encoder.** Any sequence of calls on ONE encoder (any initial chunk
+buffer), the `i`-th call writing to its own writer that fails after `room i` bytes (`none`: never):
+no call panics; the `i`-th writer receives exactly what a fresh encoder would have written, truncated
+to its room, and the call reports `Ok` iff everything fitted; and the concatenated output of the
+successful calls is read by the reference interpreter as exactly the concatenation of the meanings of
+the commands of those calls — nothing is left over from, or missing because of, an earlier call. -/
+theorem C05_encoder_stream (caps : Caps) (items : List (Cmd × Option Nat))
+    (hr : ∀ i ∈ items, InRange i.1) (hv : ∀ i ∈ items, Valid i.1) (st : RawChunks) :
+    ∃ st' outs, encodeStream caps st items = .ok (st', outs) ∧
+      outs = items.map (fun i => (takeRoom i.2 (encode caps i.1), fitsRoom i.2 (encode caps i.1))) ∧
+      interp ((outs.filter (·.2)).flatMap (·.1))
+        = some (((items.filter fun i => fitsRoom i.2 (encode caps i.1)).map (·.1)).flatMap (meaning caps)) := by
+  obtain ⟨st', e⟩ := encodeStream_spec caps items hr st
+  refine ⟨st', _, e, rfl, ?_⟩
+  have hbytes : ((items.map (fun i => (takeRoom i.2 (encode caps i.1), fitsRoom i.2 (encode caps i.1)))).filter
+        (·.2)).flatMap (·.1)
+      = ((items.filter fun i => fitsRoom i.2 (encode caps i.1)).map (·.1)).flatMap (encode caps) := by
+    clear e hr hv
+    induction items with
+    | nil => rfl
+    | cons i rest ih =>
+      by_cases hf : fitsRoom i.2 (encode caps i.1) = true
+      · simp only [List.map_cons, List.filter_cons, hf, if_true, List.flatMap_cons, ih,
+          takeRoom_of_fits _ _ hf]
+      · simp only [List.map_cons, List.filter_cons, hf]
+        exact ih
+  rw [hbytes]
+  apply C05_stream
+  intro c hc
+  simp only [List.mem_map, List.mem_filter] at hc
+  obtain ⟨i, ⟨hi, _⟩, rfl⟩ := hc
+  exact hv i hi
+
+/-- with writers that never fail, an encoder that starts with an empty chunk buffer ends with an empty
+chunk buffer ("each call starts from and leaves an empty buffer"), every call returns `Ok`, and the
+whole output is the concatenation of the pure encodings, which reads back as the meanings -/
+theorem C05_encoder_stream_ok (caps : Caps) (cmds : List Cmd) (hr : ∀ c ∈ cmds, InRange c)
+    (hv : ∀ c ∈ cmds, Valid c) :
+    encodeStream caps RawChunks.empty (cmds.map fun c => (c, none))
+      = .ok (RawChunks.empty, cmds.map fun c => (encode caps c, true)) ∧
+    interp (cmds.flatMap (encode caps)) = some (cmds.flatMap (meaning caps)) :=
+  ⟨encodeStream_empty caps cmds hr, C05_stream caps cmds hv⟩
+
+/-! ### resynchronisation: what "whatever preceded it" means exactly -/
+
+/-- the interpreter started in parser state `s` (e.g. in the middle of a sequence that was cut off) -/
+def interpFrom (s : PState) (bs : List Nat) : Option (List Op) :=
+  match run s bs with
+  | (.ground, seqs) => some (seqs.map sem)
+  | _ => none
+
+theorem interpFrom_ground (bs : List Nat) : interpFrom .ground bs = interp bs := rfl
+
+/-- **C05, resynchronisation.** Let the interpreter be in ANY parser state `s` — ground, or inside a
+cut-off escape / CSI sequence, UTF-8 character, or unterminated OSC / DCS string.  Every command other
+than `Char` whose encoding is not empty is still read as exactly its meaning: the interpreter first
+aborts the interrupted sequence (`abortMark s`: nothing for escape / CSI, one `bad 27` item for a
+partial character or a dropped string) and then performs the command; what follows is read from the
+ground state.  (Reason: all these encodings start with `ESC x`, `x ≠ \`, and ESC restarts the
+reference parser from every state — the VT500 rule; `run_esc_restart`.)
+Commands with an empty encoding have an empty meaning.  `Char` does NOT resynchronise: see the examples. -/
+theorem C05_resync (caps : Caps) (cmd : Cmd) (h : Valid cmd) (hc : ∀ cp, cmd ≠ .char cp)
+    (hne : encode caps cmd ≠ []) (s : PState) (post : List Nat) :
+    interpFrom s (encode caps cmd ++ post)
+      = (interp post).map fun opsPost => (abortMark s).map sem ++ meaning caps cmd ++ opsPost := by
+  obtain ⟨seqs, he, hm⟩ := C05_run caps cmd h
+  unfold interpFrom interp
+  rw [escInitial_run _ (encode_escInitial caps cmd hc) hne s post, he post]
+  cases hq : run .ground post with
+  | mk st2 sq => cases st2 <;> simp [hm]
+
+/-- a command that emits nothing means nothing -/
+theorem C05_empty_means_nothing (caps : Caps) (cmd : Cmd) (h : Valid cmd) (he : encode caps cmd = []) :
+    meaning caps cmd = [] := by
+  have := C05_meaning caps cmd h
+  rw [he] at this
+  simpa [interp, run] using this.symm
+
+/-- `Char` is read correctly only from the ground state: after a cut-off `ESC [` the character is taken
+as the final byte of the CSI sequence (here: `A` = cursor up), inside an unterminated OSC string it is
+swallowed into the string -/
+example : interpFrom (.csi [] []) (encode ⟨.trueColor, false⟩ (.char 65)) = some [.cuu 1] := by decide
+example : interpFrom (.osc [48, 59]) (encode ⟨.trueColor, false⟩ (.char 65) ++ stB) = some [.title [65]] := by
+  decide
+/-- a `Face` after an unterminated title string: the string is dropped (`bad 27`), the face is read -/
+example : interpFrom (.osc [48, 59, 120]) (encode ⟨.gray, false⟩ (.face ⟨none, none, 0, true, false, false, false, false⟩))
+    = some [.other (.bad 27), .sgr [.reset, .bold]] := by decide
+
+/-! ### positions: plain `+ 1`, and the saturated corner -/
+
+/-- no parameter at `usize::MAX` (where `saturating_add(1)` cannot add) -/
+def NoSat : Cmd → Prop
+  | .cursorTo row col => row < usizeMax ∧ col < usizeMax
+  | .scrollRegion start stop => start < usizeMax ∧ stop < usizeMax
+  | _ => True
+
+/-- `meaning` with the textbook one-based positions: zero-based `row`, `col` address line `row + 1`,
+column `col + 1` -/
+def meaningPlain (caps : Caps) : Cmd → List Op
+  | .cursorTo row col => [.cup (row + 1) (col + 1)]
+  | .scrollRegion start stop =>
+    if stop > start then [.decstbm (some (start + 1, stop + 1))] else [.decstbm none]
+  | cmd => meaning caps cmd
+
+/-- **C05, meaning with plain `+ 1`.** Below `usize::MAX` positions are exactly one-based. -/
+theorem C05_meaning_plain (caps : Caps) (cmd : Cmd) (h : Valid cmd) (hs : NoSat cmd) :
+    interp (encode caps cmd) = some (meaningPlain caps cmd) := by
+  rw [C05_meaning caps cmd h]
+  cases cmd with
+  | cursorTo row col =>
+    obtain ⟨h1, h2⟩ := hs
+    have e1 : satSucc row = row + 1 := by unfold satSucc; unfold usizeMax at *; split <;> omega
+    have e2 : satSucc col = col + 1 := by unfold satSucc; unfold usizeMax at *; split <;> omega
+    simp [meaning, meaningPlain, e1, e2]
+  | scrollRegion start stop =>
+    obtain ⟨h1, h2⟩ := hs
+    have e1 : satSucc start = start + 1 := by unfold satSucc; unfold usizeMax at *; split <;> omega
+    have e2 : satSucc stop = stop + 1 := by unfold satSucc; unfold usizeMax at *; split <;> omega
+    simp [meaning, meaningPlain, e1, e2]
+  | _ => rfl
+
+/-- **the saturated corner** (spec decision): the zero-based position `usize::MAX` cannot be written
+one-based in a `usize`; the encoder addresses line / column `usize::MAX` instead of `usize::MAX + 1`.
+Both are beyond any screen, and terminals clamp CUP / DECSTBM parameters to the screen size, so the
+cursor lands on the last line either way; the interpreter here does not model a screen size and
+reports the parameter as sent. -/
+theorem C05_saturated (caps : Caps) (col : Nat) :
+    interp (encode caps (.cursorTo usizeMax col)) = some [.cup usizeMax (satSucc col)] ∧
+    interp (encode caps (.cursorTo col usizeMax)) = some [.cup (satSucc col) usizeMax] := by
+  have e : satSucc usizeMax = usizeMax := by unfold satSucc; simp
+  constructor
+  · rw [C05_meaning caps (.cursorTo usizeMax col) trivial]; simp [meaning, e]
+  · rw [C05_meaning caps (.cursorTo col usizeMax) trivial]; simp [meaning, e]
+
 /-! ### SGR selects exactly the requested attributes -/
 
 /-- the attribute state a `Face` asks for in true-colour mode -/
@@ -543,6 +728,44 @@ theorem C05_palette_single (c : Color) (role : Role) (hrole : role ≠ .ul) :
     (∃ i, colorMeaning c .gray role = [colorOp role (.inr i)]) := by
   cases role <;> simp_all [colorMeaning, colorOp]
 
+/-- **C05, exact face at every depth.** Whatever the terminal's attributes were, after a `Face`
+command they are exactly the requested ones: true colour — the RGB triples; 256 colours — the palette
+entry `pal` of each colour; grey — one of the palette entries 0 / 8 / 7 / 15 per colour; the underline
+colour is the default; every attribute is as requested. -/
+theorem C05_face_exact_depth (d : Depth) (f : Face) (hu : f.under ≤ 5) (a : Attr) :
+    (faceMeaning f d).foldl applySgr a = attrOfFaceAt d f := face_exact_depth d f hu a
+
+/-- **C05, exact face modification.** Applying the SGR operations of a `FaceModify` to ANY attribute
+state changes exactly the requested fields (`modifyAttr`): after the optional reset, a colour given is
+selected (RGB / palette entry / grey entry by depth), `Some(true)` sets and `Some(false)` clears a
+flag, `None` leaves the field untouched, `underline: Some(k)` sets the style, `reverse` is never
+touched.  At depth `gray` the underline colour is left untouched (`C05_gray_underline_not_emitted`). -/
+theorem C05_modify_exact (d : Depth) (m : FaceModify) (hu : ∀ k, m.underline = some k → k ≤ 5) (a : Attr) :
+    (faceModifyMeaning m d).foldl applySgr a = modifyAttr d m a := modify_exact d m hu a
+
+/-- **C05, reduced depths select one palette entry per colour** — as an effect on the attribute state:
+256 colours: foreground, background and underline colour become the palette index `pal`; grey:
+foreground and background become one of the four entries 0, 8, 7, 15. -/
+theorem C05_reduced_single (c : Color) (a : Attr) :
+    ((colorMeaning c .eightBit .fg).foldl applySgr a = { a with fg := some (.inr c.pal) }) ∧
+    ((colorMeaning c .eightBit .bg).foldl applySgr a = { a with bg := some (.inr c.pal) }) ∧
+    ((colorMeaning c .eightBit .ul).foldl applySgr a = { a with ul := some (.inr c.pal) }) ∧
+    ((colorMeaning c .gray .fg).foldl applySgr a = { a with fg := some (selOf .gray c) }) ∧
+    ((colorMeaning c .gray .bg).foldl applySgr a = { a with bg := some (selOf .gray c) }) ∧
+    (∃ i, selOf .gray c = .inr i ∧ (i = 0 ∨ i = 8 ∨ i = 7 ∨ i = 15)) :=
+  let ⟨h1, h2, h3, h4, h5⟩ := reduced_single c a
+  ⟨h1, h2, h3, h4, h5, gray_entries c⟩
+
+/-- **grey depth: the underline colour is NOT emitted** (there is no 16-colour SGR code for it): the
+command's meaning contains no operation for it, the encoder emits no byte for it, the attribute state
+keeps its underline colour.  In this one place "one palette entry per colour" does not hold: the
+colour is dropped, by decision of the specification `meaning`. -/
+theorem C05_gray_underline_not_emitted (c : Color) (kitty : Bool) (a : Attr) :
+    colorMeaning c .gray .ul = [] ∧
+    encode ⟨.gray, kitty⟩ (.faceModify ⟨false, none, none, none, some c, none, none, none, none⟩) = [] ∧
+    (modifyAttr .gray ⟨false, none, none, none, some c, none, none, none, none⟩ a).ul = a.ul :=
+  ⟨rfl, rfl, rfl⟩
+
 /-! Non-vacuity: concrete commands of every shape meet `Valid`, and the pinned defects are visible. -/
 example : Valid (.char 0x1F600) := by unfold Valid printable; omega
 example : Valid (.termcap [[84, 78], [67, 111]]) := by
@@ -552,6 +775,23 @@ example : interp (encode ⟨.trueColor, true⟩ (.decModeSet true 1049)) =
   rw [C05_meaning ⟨.trueColor, true⟩ (.decModeSet true 1049) trivial]; rfl
 example : interp (encode ⟨.trueColor, false⟩ (.cursorMove (-2147483648) 0)) = some [.cuu 2147483648] := by
   rw [C05_meaning ⟨.trueColor, false⟩ (.cursorMove (-2147483648) 0) trivial]; rfl
+/-- below `usize::MAX` positions are plainly one-based -/
+example : interp (encode ⟨.trueColor, false⟩ (.cursorTo 3 4)) = some [.cup 4 5] := by
+  rw [C05_meaning_plain ⟨.trueColor, false⟩ (.cursorTo 3 4) trivial (by simp [NoSat, usizeMax])]; rfl
+/-- hypothesis of `C05_modify_exact` -/
+example : ∀ k, (⟨true, none, none, some 3, none, some false, none, none, none⟩ : FaceModify).underline = some k → k ≤ 5 := by
+  intro k h; cases h; omega
+/-- a stream through one encoder whose first writer fails after 3 bytes: the call reports an error, the
+chunk buffer is left UNCLEARED (buffer `01`, offsets 1, 2) — and the next call still writes exactly its
+own bytes and leaves the buffer empty -/
+example :
+    encodeStream ⟨.gray, false⟩ RawChunks.empty
+      [(.face ⟨none, none, 0, true, false, false, false, false⟩, some 3),
+       (.face ⟨none, none, 1, false, false, false, false, false⟩, none)]
+    = .ok (RawChunks.empty, [([27, 91, 48], false), ([27, 91, 48, 59, 52, 109], true)]) := rfl
+example :
+    encodeSt ⟨.gray, false⟩ RawChunks.empty (.face ⟨none, none, 0, true, false, false, false, false⟩) ⟨[], some 3⟩
+    = .ok (⟨[48, 49], [1, 2]⟩, ⟨[27, 91, 48], some 0⟩, false) := rfl
 /-- SGR 21 (what the pinned encoder emitted for "bold off") is double underline to the interpreter -/
 example : interp [27, 91, 50, 49, 109] = some [.sgr [.underline 2]] := by decide
 
